@@ -572,8 +572,9 @@ def gen_IvtConsts():
             fn = method(ivt, py)
             if fn is None:
                 raise Untr("method not found")
+            txt = tr_getter(fn, consts, ln, ret)
             o.append(f"/-- translated from `Mbi_MixinIvt.{py}` (line {fn.lineno}) -/")
-            o.append(tr_getter(fn, consts, ln, ret))
+            o.append(txt)
             meta["translated"][ln] = "translated"
         except Untr as exc:
             o.append(f"-- untranslatable: Mbi_MixinIvt.{py}: {exc}")
@@ -582,8 +583,9 @@ def gen_IvtConsts():
         fn = method(ivt, "create_flags")
         if fn is None:
             raise Untr("method not found")
+        txt = tr_create_flags(fn, consts)
         o.append(f"/-- translated from `Mbi_MixinIvt.create_flags` (line {fn.lineno}); the parameters are the attribute reads of the body -/")
-        o.append(tr_create_flags(fn, consts))
+        o.append(txt)
         meta["translated"]["createFlags"] = "translated"
     except Untr as exc:
         o.append(f"-- untranslatable: Mbi_MixinIvt.create_flags: {exc}")
